@@ -32,7 +32,7 @@ G = "c06.partial"
 G_IDX = "c06.index_views"
 CONTRACT = "P(pf) == the part of pf.to_pandas() that the access program P stands for; reported counts == rows read"
 
-DATASETS = list(D.QUICK) + list(D.CAT_GROWS)
+DATASETS = list(D.QUICK) + list(D.CAT_GROWS) + list(getattr(D, "TZ_ONE_ROW", []))
 FOREIGN = ["nation.plain.parquet", "test.parquet", "split", "multi_rgs_pyarrow", "datapage_v2.snappy.parquet",
            "foo.parquet", "no_columns.parquet", "empty.parquet", "spark-date-empty-rg.parq", "baz.parquet",
            "test-timezone.parquet", "decimals.parquet", "mr_times.parq", "metas.parq", "evo"]
